@@ -74,3 +74,13 @@ Definition check_g (c : gcase) : bool :=
 
 Definition bad_cases_g (cs : list (nat * gcase)) : list nat :=
   map fst (filter (fun c => negb (check_g (snd c))) cs).
+
+(** short names for the generated case files *)
+Definition zm : list (list ZI) -> BMx ZI := mxl (K:=ZI).
+Definition fm : list (list F.FI) -> BMx F.FI := mxl (K:=F.FI).
+Definition zcase (g : cgate ZI) (nw shp : nat) (mat : list (list ZI)) (herm : bool) (inw : nat)
+    (imat : list (list ZI)) (parts iparts : option (list nat)) : cgate ZI * expect (K:=ZI) :=
+  (g, Build_expect (K:=ZI) nw shp mat herm inw imat parts iparts).
+Definition fcase (g : cgate F.FI) (nw shp : nat) (mat : list (list F.FI)) (herm : bool) (inw : nat)
+    (imat : list (list F.FI)) (parts iparts : option (list nat)) : cgate F.FI * expect (K:=F.FI) :=
+  (g, Build_expect (K:=F.FI) nw shp mat herm inw imat parts iparts).
